@@ -611,6 +611,8 @@ E('invertlaplace', ['cb:lap_exp', 'P'], fam='I', tol=10, cost=3, c10=False, maxp
   kw={'method': lambda r, c: {'t': 'str', 'v': r.choice(['talbot', 'stehfest', 'dehoog'])}})
 E('invertlaplace', ['cb:lap_exp', 'P'], key='invertlaplace_deg', fam='I', tol=10, cost=2, c10=False, maxprec=70,      # the rule singletons
   kw={'method': lambda r, c: {'t': 'str', 'v': r.choice(['stehfest', 'stehfest', 'talbot', 'dehoog'])}, 'degree': (0.7, 'c:8,12,15,16,16,20,30')})
+E('invertlaplace', ['cb:lap_exp', 'P'], key='invertlaplace_stehfest16', fam='I', tol=10, cost=2, c10=False, maxprec=70,     # one order at many precisions
+  kw={'method': '=stehfest', 'degree': 'c:15,16,16'})
 E('invertlaplace', ['cb:lap_sin', 'P'], key='invertlaplace_sin', fam='I', tol=10, cost=2, c10=False, maxprec=70,
   kw={'method': lambda r, c: {'t': 'str', 'v': r.choice(['stehfest', 'talbot', 'dehoog'])}, 'degree': (0.5, 'c:8,12,16,20,30')})
 E('richardson', 'vec', fam='I', tol=10, c10=False, ret='seq', ctxs=MPFP)
